@@ -137,6 +137,9 @@ class Photon:
         if type(self) is not type(other):
             return False
 
+        if (self._num_rows, self._num_cols) != (other._num_rows, other._num_cols):
+            return False
+
         if self._array is other._array is None:
             return True
 
